@@ -447,6 +447,9 @@ var c20Alphabet = []string{
 	`{a:|[int64]|}`,
 	`{a:[{x:int64}]}`,
 	`{a:[{y:int64}]}`,
+	`{a:[{z:string}]}`,
+	`{a:[({x:int64},{y:int64},{z:string})]}`,
+	`[({x:int64},{w:ip})]`,
 	`{a:(int64,string)}`,
 	`{a:port=uint16}`,
 	`{a:null}`,
@@ -494,7 +497,7 @@ func c20ValGen(r *rt.Rand) *gen.ValGen {
 }
 
 func runC20(c *rt.Ctx) {
-	c.Note("rule", "case = one input sequence run through `fuse` at the default fuse.MemMaxBytes, through `summarize fuse(this)`, and through `fuse` again with MemMaxBytes=1 and a mid-stream limit (spills counted at the fuse.spill hook); oracle: |out|=|in|, every output has the type fuse(this) reports, that type is well-formed, per position the multiset of (path, primitive type, bytes) over non-null leaves is unchanged (named types and union tags transparent, container elements as a multiset), spilled output identical. tuple cases enumerate ordered pairs / triples of a 24-type alphabet with 1–2 generated values per type, random cases draw 1–6 generated types of depth ≤3; non-trivial = input with ≥2 distinct record types sharing a field name at different types; distinct by the sorted set of input type strings")
+	c.Note("rule", "case = one input sequence run through `fuse` at the default fuse.MemMaxBytes, through `summarize fuse(this)`, and through `fuse` again with MemMaxBytes=1 and a mid-stream limit (spills counted at the fuse.spill hook); oracle: |out|=|in|, every output has the type fuse(this) reports, that type is well-formed, per position the multiset of (path, primitive type, bytes) over non-null leaves is unchanged (named types and union tags transparent, container elements as a multiset), spilled output identical. tuple cases enumerate ordered pairs / triples of a 27-type alphabet with 1–2 generated values per type, random cases draw 1–6 generated types of depth ≤3; shapes cases spread 3–6 record shapes over the elements of arrays/sets (top level, under a field, nested) of 2–5 values; non-trivial = input with ≥2 distinct record types sharing a field name at different types; distinct by the sorted set of input type strings")
 	c.Note("assumptions", strings.Join([]string{
 		"top-level error values are not generated (like every operator, fuse passes them through unshaped — language design); error-typed fields inside records are",
 		"the fused type must not contain a union with duplicate members (the data model defines unions over two or more unique types), checked on the type fuse(this) reports",
@@ -564,6 +567,11 @@ func runC20(c *rt.Ctx) {
 	for i, n := 0, c.N(1200, 25000); i < n; i++ {
 		c.Case("random", i, func(o *rt.Obs) { c20Random(c, o) })
 	}
+	// containers whose elements have several record shapes: three or more
+	// record types meeting in one element union, arriving one value at a time
+	for i, n := 0, c.N(500, 10000); i < n; i++ {
+		c.Case("shapes", i, func(o *rt.Obs) { c20Shapes(c, o) })
+	}
 	c.Count("harness_batches_poisoned_on_release", c06Released.Load())
 }
 
@@ -584,6 +592,90 @@ func c20Mark(c *rt.Ctx, o *rt.Obs, res c20Result, vals []zed.Value) {
 			c.Count("such_cases_that_also_spilled", 1)
 		}
 	}
+}
+
+// c20Shapes: 3–6 distinct record shapes over a few field names (some sharing a
+// field at different types), spread over 2–5 values as elements of an array or
+// set, at top level, under a field, under a nested record, or as a direct
+// union-typed field.
+func c20Shapes(c *rt.Ctx, o *rt.Obs) {
+	r := o.R
+	zctx := zed.NewContext()
+	fields := []string{"a", "b", "c", "x", "y"}
+	leaves := []string{"1", "2", `"s"`, `"t"`, "1.5", "true", "10.0.0.1", "[1,2]", `{q:1}`, `{q:"u"}`, "null"}
+	seen := map[string]bool{}
+	var shapes []string
+	nshapes := r.Range(3, 6)
+	for tries := 0; len(shapes) < nshapes && tries < 100; tries++ {
+		nf := r.Range(1, 3)
+		perm := r.Perm(len(fields))[:nf]
+		var parts, key []string
+		for _, fi := range perm {
+			v := rt.Pick(r, leaves)
+			parts = append(parts, fields[fi]+":"+v)
+			key = append(key, fields[fi])
+		}
+		sort.Strings(key)
+		k := strings.Join(key, ",")
+		if seen[k] && r.Chance(2, 3) {
+			continue // mostly distinct field sets; sometimes the same fields at other types
+		}
+		seen[k] = true
+		shapes = append(shapes, "{"+strings.Join(parts, ",")+"}")
+	}
+	where := r.Intn(6)
+	wrap := func(elems []string) string {
+		list := strings.Join(elems, ",")
+		switch where {
+		case 0:
+			return "[" + list + "]"
+		case 1:
+			return "{r:[" + list + "]}"
+		case 2:
+			return "{n:1,r:{s:[" + list + "],t:\"x\"}}"
+		case 3:
+			return "{r:|[" + list + "]|}"
+		case 4:
+			return "{r:[[" + list + "]]}"
+		default:
+			return "{r:" + elems[0] + "}" // a field holding one record shape per value
+		}
+	}
+	nvals := r.Range(2, 5)
+	var srcs []string
+	used := 0
+	for i := 0; i < nvals; i++ {
+		ne := r.Range(1, 3)
+		var elems []string
+		for j := 0; j < ne; j++ {
+			// walk through the shapes so that every shape occurs, later ones in later values
+			k := used % len(shapes)
+			if r.Chance(1, 4) {
+				k = r.Intn(len(shapes))
+			} else {
+				used++
+			}
+			elems = append(elems, shapes[k])
+		}
+		srcs = append(srcs, wrap(elems))
+	}
+	var vals []zed.Value
+	for _, s := range srcs {
+		v, err := zson.ParseValue(zctx, s)
+		if err != nil {
+			o.Count("shapes_unparseable_skipped", 1)
+			return
+		}
+		vals = append(vals, v)
+	}
+	o.Desc(map[string]any{"shapes": shapes, "values": srcs})
+	if o.Index%100 == 0 {
+		o.Sample(map[string]any{"kind": "shapes", "values": srcs})
+	}
+	o.Count("shapes_cases", 1)
+	c.Max("max_record_shapes_in_one_container", int64(len(shapes)))
+	res := c20Check(c, o, zctx, vals)
+	c20Mark(c, o, res, vals)
 }
 
 func c20Random(c *rt.Ctx, o *rt.Obs) {
